@@ -331,6 +331,20 @@ SITES["C16"] = [
          atoms={"self._numbers": ("cached", O), "self._vocab": ("vocab", O)}),
 ]
 
+# the copy constructor's bookkeeping: which of the slots copied from the source (`_ids`, `_numbers`, `_ranks`) survive an override
+SITES["C16"] += [
+    dict(file="data/items.py", cls="ItemList", fn="__init__", mode="branch", select="source._vocab is not vocabulary", lean="ctorStaleNumbersBranch",
+         atoms={"isinstance(source, ItemList)": ("srcIsList", B), "source._vocab": ("srcVocab", O), "source._vocab is not vocabulary": ("differs", B), "source._numbers": ("srcNumbers", O)}),
+    dict(file="data/items.py", cls="ItemList", fn="__init__", mode="branch", select="'item_id' not in fields", lean="ctorResolveIdsBranch",
+         atoms={"item_ids": ("itemIds", O), "'item_id' not in fields": ("noIdAlias", B)}),
+    dict(file="data/items.py", cls="ItemList", fn="__init__", mode="branch", select="source is not None and source._numbers", lean="ctorClearNumbersBranch",
+         atoms={"source": ("source", O), "source._numbers": ("srcNumbers", O)}),
+    dict(file="data/items.py", cls="ItemList", fn="__init__", mode="branch", select="source._ids is not None", lean="ctorClearIdsBranch",
+         atoms={"item_ids": ("itemIds", O), "source": ("source", O), "source._ids": ("srcIds", O)}),
+    dict(file="data/items.py", cls="ItemList", fn="__init__", mode="branch", select="self._len != source._len", lean="ctorDropRanksBranch",
+         atoms={"isinstance(source, ItemList)": ("srcIsList", B), "self._len": ("newLen", I), "source._len": ("srcLen", I)}),
+]
+
 SITES["C07"] += [
     dict(file="metrics/predict.py", cls="PredictMetric", fn="align_scores", mode="branch", select="pred_m & ~rate_m", lean="missingScoresBranch",
          atoms={"self.missing_scores == 'error'": ("scoresAreError", B), "self.missing_truth == 'error'": ("truthIsError", B),
